@@ -898,6 +898,7 @@ type UDPConn struct {
 	Sent, Recv int
 	Dropped int
 	readErrs int // injected transient (non-timeout) read errors
+	fam      int // 4 / 6: opened as "udp4" / "udp6" (one address family only); 0: "udp"
 }
 
 // InjectReadError makes the next ReadFrom fail once with a non-timeout error (ECONNREFUSED, as
@@ -941,6 +942,15 @@ func (w *World) listenUDP(owner string, a *net.UDPAddr, key string) (*UDPConn, e
 	return u, nil
 }
 
+func (u *UDPConn) setFamily(network string) {
+	switch network {
+	case "udp4":
+		u.fam, u.dual = 4, false
+	case "udp6":
+		u.fam, u.dual = 6, false
+	}
+}
+
 // ListenPacket is the replacement of net.ListenPacket (udp only).
 func ListenPacket(network, address string) (net.PacketConn, error) {
 	if vrt.Aborting() {
@@ -957,10 +967,15 @@ func ListenPacket(network, address string) (net.PacketConn, error) {
 		if W.UDPSocketFailAt != 0 && W.udpOutCount == W.UDPSocketFailAt {
 			return nil, opErr("listen", network, nil, nil, os.NewSyscallError("socket", syscall.EMFILE))
 		}
-		u, err := W.listenUDP("srv", &net.UDPAddr{}, address)
+		wild := &net.UDPAddr{}
+		if network == "udp4" {
+			wild.IP = net.IPv4zero.To4()
+		}
+		u, err := W.listenUDP("srv", wild, address)
 		if err != nil {
 			return nil, err
 		}
+		u.setFamily(network)
 		return u, nil
 	}
 	a, err := ResolveUDPAddr(network, address)
@@ -971,6 +986,7 @@ func ListenPacket(network, address string) (net.PacketConn, error) {
 	if err != nil {
 		return nil, err
 	}
+	u.setFamily(network)
 	return u, nil
 }
 
@@ -1065,6 +1081,13 @@ func (u *UDPConn) WriteTo(b []byte, addr net.Addr) (int, error) {
 		ua = &net.UDPAddr{IP: net.IPv4(127, 0, 0, 1), Port: ua.Port}
 	}
 	is4 := ua.IP.To4() != nil
+	if u.fam == 4 && !is4 {
+		return 0, opErr("write", "udp4", u.local, addr, &net.AddrError{Err: "non-IPv4 address", Addr: ua.IP.String()})
+	}
+	if u.fam == 6 && is4 {
+		// the address is sent as ::ffff:a.b.c.d, which an IPv6-only socket cannot reach
+		return 0, opErr("write", "udp6", u.local, addr, os.NewSyscallError("sendto", syscall.ENETUNREACH))
+	}
 	if !u.dual && isWild(u.local.IP) == false {
 		if (u.local.IP.To4() != nil) != is4 {
 			return 0, opErr("write", "udp", u.local, addr, os.NewSyscallError("sendto", syscall.EAFNOSUPPORT))
